@@ -5,8 +5,7 @@
   the value written and leaves exactly the bytes that follow it (`rest` is arbitrary).
   `write_dom_raises_X`: outside the domain the writer raises `ValueError`.
   `milliseconds_form`, `transition_form`: which compact form is emitted (canonicity).
-  The model is the INTENDED writer (DESIGN §7 rows 9 and 10); `pinned_milliseconds_counterexample` records what
-  the pinned `write_milliseconds` does with 30 ms.
+  The model is the writer as repaired by 376f97f (30 ms) and 5927b21 (hours form).
 -/
 import Mathlib.Tactic.Ring
 import PyodaModel.Codec
@@ -15,6 +14,8 @@ import PyodaProofs.C14Lemmas
 import PyodaProofs.C14Transition
 import PyodaProofs.C14Composite
 import PyodaProofs.C14Zone
+import PyodaProofs.C14Pool
+import PyodaProofs.C14Canonical
 
 namespace Pyoda.C14
 open Pyoda Pyoda.Codec
@@ -82,13 +83,6 @@ theorem milliseconds_form (v : Int) (h : -MsPD < v ∧ v < MsPD) :
       bs.length = (if (v + MsPD) % 1800000 = 0 then 1 else if (v + MsPD) % 60000 = 0 then 2
                    else if (v + MsPD) % 1000 = 0 then 3 else 4) :=
   writeMilliseconds_length v h
-
-/-- the pinned `write_milliseconds` (first test `== 30`): 30 ms is written as one byte that reads back as 0,
-    and 0 takes two bytes. Deleted when the repair is committed. -/
-theorem pinned_milliseconds_counterexample :
-    writeMillisecondsPinned 30 = .ok [48] ∧ readMilliseconds [48] = .ok (0, []) ∧
-    writeMillisecondsPinned 0 = .ok [133, 160] ∧ writeMilliseconds 0 = .ok [48] := by
-  decide
 
 theorem read_write_offset (o : Offset) (h : Offset.MIN_S ≤ o.seconds ∧ o.seconds ≤ Offset.MAX_S) (rest : Bytes) :
     ∃ bs, writeOffset o = .ok bs ∧ readOffset (bs ++ rest) = .ok (o, rest) :=
@@ -164,6 +158,58 @@ theorem read_write_recurrence (z : ZoneRecurrence) (h : RecurrenceDom z) (rest :
 theorem read_write_precalculatedZone (z : PrecalculatedZone) (h : ZoneDom z) (rest : Bytes) :
     ∃ bs, writePrecalculated none z = .ok (bs, none) ∧ readPrecalculatedData none z.id (bs ++ rest) = .ok (z, rest) :=
   readPrecalculated_writePrecalculated z h rest
+
+/-! ## with a string pool (`pool = none` is the inline case; `some p` needs every string to be a member of `p`) -/
+
+theorem read_write_dictionary (pool : Pool) (d : List (Str × Str)) (h : DictDom pool d) (rest : Bytes) :
+    ∃ bs, writeDictionary pool d = .ok (bs, pool) ∧ readDictionary pool (bs ++ rest) = .ok (d, rest) :=
+  readDictionary_writeDictionary pool d h rest
+
+theorem read_write_alternatingMap_pool (pool : Pool) (m : AlternatingMap) (h : MapDomP pool m) (rest : Bytes) :
+    ∃ bs, writeAlternatingMap pool m = .ok (bs, pool) ∧ readAlternatingMap pool (bs ++ rest) = .ok (m, rest) :=
+  readAlternatingMap_writeAlternatingMap_pool pool m h rest
+
+theorem read_write_recurrence_pool (pool : Pool) (z : ZoneRecurrence) (h : RecurrenceDomP pool z) (rest : Bytes) :
+    ∃ bs, writeRecurrence pool z = .ok (bs, pool) ∧ readRecurrence pool (bs ++ rest) = .ok (z, rest) :=
+  readRecurrence_writeRecurrence_pool pool z h rest
+
+theorem read_write_precalculatedZone_pool (pool : Pool) (z : PrecalculatedZone) (h : ZoneDomP pool z) (rest : Bytes) :
+    ∃ bs, writePrecalculated pool z = .ok (bs, pool) ∧ readPrecalculatedData pool z.id (bs ++ rest) = .ok (z, rest) :=
+  readPrecalculated_writePrecalculated_pool pool z h rest
+
+/-- fixed zones: the long form (offset, name) and the short form (offset only, the name is the id) -/
+theorem read_write_fixedZone (pool : Pool) (z : FixedZone) (ho : OffsetDom z.offset) (hn : StrOk pool z.name) (rest : Bytes) :
+    (∃ bs, writeFixed pool z = .ok (bs, pool) ∧ readFixed pool z.id (bs ++ rest) = .ok (z, rest)) ∧
+    (∃ bs, writeOffset z.offset = .ok bs ∧ readFixed pool z.id bs = .ok (⟨z.id, z.offset, z.id⟩, [])) :=
+  ⟨readFixed_writeFixed pool z ho hn rest, readFixed_offset_only pool z.id z.offset ho⟩
+
+/-! ## canonical bytes: decode, then encode, reproduces them
+
+  `Canonical pool id bs` = the strict decoder (`readPrecalculatedDataS`: decodes like the reader and insists, for every
+  primitive, that the primitive writer emits exactly the bytes consumed — i.e. the forms of `milliseconds_form`,
+  `transition_form`, `signedCount_form`, minimal varints, first pool index) accepts `bs` to the last byte.
+  The harness evaluates the same check (`canonicalZoneField`) on every zone field of both real files. -/
+
+theorem write_read_canonical (pool : Pool) (id : Str) (bs : Bytes) (z : PrecalculatedZone)
+    (hc : Canonical pool id bs) (hr : readPrecalculatedData pool id bs = .ok (z, [])) :
+    writePrecalculated pool z = .ok (bs, pool) :=
+  write_read_canonical_aux pool id bs z hc hr
+
+/-- a strict decode is a decode, and the writer reproduces exactly the bytes it consumed (any continuation) -/
+theorem canonical_decode_reencode (pool : Pool) (id : Str) (bs : Bytes) (z : PrecalculatedZone) (r : Bytes)
+    (h : readPrecalculatedDataS pool id bs = .ok (z, r)) :
+    readPrecalculatedData pool id bs = .ok (z, r) ∧ ∃ c, writePrecalculated pool z = .ok (c, pool) ∧ bs = c ++ r :=
+  readPrecalculatedDataS_ok pool id bs z r h
+
+theorem canonical_check_sound (pool : Pool) (field : Bytes) (h : canonicalZoneField pool field = .ok (some true)) :
+    ∃ id r, readString pool field = .ok (id, 2 :: r) ∧ Canonical pool id r :=
+  canonicalZoneField_sound pool field h
+
+example : DictDom (some [[65], [], [66]]) [([65], [66]), ([], [65])] := by
+  refine ⟨by decide, by decide, ?_⟩
+  intro e he
+  simp only [List.mem_cons, List.mem_nil_iff, or_false] at he
+  rcases he with rfl | rfl <;> exact ⟨⟨by decide, by decide⟩, ⟨by decide, by decide⟩⟩
 
 example : ZoneDom ⟨[85, 84, 67], [⟨[85, 84, 67], Instant.beforeMin, Instant.afterMax, ⟨0⟩, ⟨0⟩⟩], none⟩ := by
   refine ⟨by decide, ⟨_, _, rfl, ?_, Or.inl rfl, trivial⟩, trivial⟩
